@@ -57,6 +57,47 @@ var syncKeys = []struct{ key, label string }{
 	{"pbytes.Get(", "pool-get"},
 	{"pbytes.Put(", "pool-put"},
 	{"c.executor.Exec(", "exec"},
+	// bootstrap.go / holder.go
+	{"bs.listeners.LoadOrStore(", "map-store"},
+	{"bs.listeners.Load(", "map-load"},
+	{"bs.listeners.Range(", "map-range"},
+	{"bs.listeners.Delete(", "map-delete"},
+	{"bs.bootstrapCancel()", "bs-cancel"},
+	{"bs.holder.CloseAll(", "closeall"},
+	{".transportFactory.Listen(", "factory-listen"},
+	{".Accept()", "accept"},
+	{"acceptor.Close()", "acc-close"},
+	{"l.acceptor", "acceptor-field"},
+	{"l.bs.ServeChannel(", "serve"},
+	{"l.bs.executor.Exec(", "exec"},
+	{"ch.Close(err)", "holder-close"},
+}
+
+// idSuffix is a Go expression (type string) naming the object the current function works on; it is
+// appended to every label of the function as "#<value>" so that the monitor can tell which
+// listener a step belongs to. Set per function declaration from its receiver.
+var idSuffix string
+
+func labelExpr(fn, lab string) string {
+	q := fmt.Sprintf("%q", fn+"."+lab)
+	if lab == "holder-close" {
+		return q + ` + "#" + fmt.Sprint(ch.ID())`
+	}
+	if idSuffix != "" {
+		return q + ` + "#" + ` + idSuffix
+	}
+	return q
+}
+
+func receiverID(fd *ast.FuncDecl) string {
+	if fd.Recv == nil || len(fd.Recv.List) != 1 || len(fd.Recv.List[0].Names) != 1 {
+		return ""
+	}
+	if src(fd.Recv.List[0].Type) == "*listener" {
+		n := fd.Recv.List[0].Names[0].Name
+		return fmt.Sprintf(`fmt.Sprintf("%%s@%%p", %s.url, %s)`, n, n)
+	}
+	return ""
 }
 
 func syncLabel(text string) (string, bool) {
@@ -109,7 +150,7 @@ func rewriteSelect(fn string, s *ast.SelectStmt) []ast.Stmt {
 		idx++
 	}
 	sw.WriteString("}\n")
-	code := fmt.Sprintf("{\nnvsel := NvSelect(%q, %v, %s)\n%s}\n", fn+".select", hasDefault, strings.Join(cases, ", "), sw.String())
+	code := fmt.Sprintf("{\nnvsel := NvSelect(%s, %v, %s)\n%s}\n", labelExpr(fn, "select"), hasDefault, strings.Join(cases, ", "), sw.String())
 	return parseStmts(code)
 }
 
@@ -133,7 +174,7 @@ func rewriteBlock(fn string, b *ast.BlockStmt) {
 			rewriteBlock(fn, s.Body)
 			if s.Cond != nil {
 				if lab, ok := syncLabel(src(s.Cond)); ok {
-					pre := parseStmts(fmt.Sprintf("NvYield(%q)\nif !(%s) { break }", fn+"."+lab, src(s.Cond)))
+					pre := parseStmts(fmt.Sprintf("NvYield(%s)\nif !(%s) { break }", labelExpr(fn, lab), src(s.Cond)))
 					s.Body.List = append(pre, s.Body.List...)
 					s.Cond = nil
 				}
@@ -155,7 +196,7 @@ func rewriteBlock(fn string, b *ast.BlockStmt) {
 			}
 			head += src(s.Cond)
 			if lab, ok := syncLabel(head); ok {
-				out = append(out, parseStmts(fmt.Sprintf("NvYield(%q)", fn+"."+lab))...)
+				out = append(out, parseStmts(fmt.Sprintf("NvYield(%s)", labelExpr(fn, lab)))...)
 			}
 			out = append(out, st)
 			continue
@@ -172,16 +213,16 @@ func rewriteBlock(fn string, b *ast.BlockStmt) {
 		case *ast.ExprStmt:
 			text := src(s)
 			if strings.HasPrefix(text, "time.Sleep(") {
-				out = append(out, parseStmts(fmt.Sprintf("NvSleep(%q, %s)", fn+".sleep", strings.TrimSuffix(strings.TrimPrefix(text, "time.Sleep("), ")")))...)
+				out = append(out, parseStmts(fmt.Sprintf("NvSleep(%s, %s)", labelExpr(fn, "sleep"), strings.TrimSuffix(strings.TrimPrefix(text, "time.Sleep("), ")")))...)
 				continue
 			}
-			if strings.HasSuffix(text, ".writeLock.Lock()") {
+			if strings.HasSuffix(text, ".Lock()") && !strings.Contains(text, "RLock") {
 				mu := strings.TrimSuffix(text, ".Lock()")
-				out = append(out, parseStmts(fmt.Sprintf("NvLock(%q, &%s)", fn+".lock", mu))...)
+				out = append(out, parseStmts(fmt.Sprintf("NvLock(%s, &%s)", labelExpr(fn, "lock"), mu))...)
 				continue
 			}
 			if ue, ok := s.X.(*ast.UnaryExpr); ok && ue.Op == token.ARROW {
-				out = append(out, parseStmts(fmt.Sprintf("NvRecvBlock(%q, %s)", fn+".recv", src(ue.X)))...)
+				out = append(out, parseStmts(fmt.Sprintf("NvRecvBlock(%s, %s)", labelExpr(fn, "recv"), src(ue.X)))...)
 				continue
 			}
 		}
@@ -199,7 +240,7 @@ func rewriteBlock(fn string, b *ast.BlockStmt) {
 			text = text[:i]
 		}
 		if lab, ok := syncLabel(text); ok {
-			out = append(out, parseStmts(fmt.Sprintf("NvYield(%q)", fn+"."+lab))...)
+			out = append(out, parseStmts(fmt.Sprintf("NvYield(%s)", labelExpr(fn, lab)))...)
 		}
 		out = append(out, st)
 	}
@@ -250,7 +291,9 @@ func main() {
 			if len(only) > 0 && !only[fd.Name.Name] {
 				continue
 			}
+			idSuffix = receiverID(fd)
 			rewriteBlock(fd.Name.Name, fd.Body)
+			idSuffix = ""
 			n++
 		}
 	}
